@@ -477,6 +477,12 @@ func lcExplore(r *kit.Run, prop string, progs []lcProg, bound int) {
 					r.Count("nonterminating_schedules", 1)
 				}
 			}
+			if !r.Quick() {
+				// the thorough tier stops each program after a fixed number of executions per worker rather than on the
+				// clock alone: which schedules are reached (and therefore which known findings are met) is then the same
+				// on every run and does not depend on how loaded the machine is
+				e.MaxExecs = lcThoroughExecsPerProgram
+			}
 			e.Run()
 			if os.Getenv("VERIF_DEBUG") != "" {
 				fmt.Fprintf(os.Stderr, "prog %s bound %d: execs=%d capped=%v maxpoints=%d maxsteps=%d\n", pr, b, e.Stats.Execs, e.Stats.Capped, e.Stats.MaxPoints, e.Stats.MaxSteps)
@@ -515,6 +521,8 @@ func lcPreemptedIn(x *vrt.Exec) string {
 	}
 	return "first-preemption-in=" + f
 }
+
+const lcThoroughExecsPerProgram = 1200
 
 func lcClass(pr lcProg) string {
 	var k []string
